@@ -60,6 +60,8 @@ def _elems(kind, a, b, c, n, L):
 CONTAINERS = {
     "list": list, "tuple": tuple, "deque": collections.deque,
     "iter": iter, "gen": O.gen, "listiter_of_tuple": lambda xs: iter(tuple(xs)),
+    # an iterable that is neither a collection nor an iterator (only __iter__)
+    "iter_only_view": O.IterOnly,
 }
 
 
